@@ -130,7 +130,12 @@ def run(rep, tier, seed, rng):
             ne2e += 1
             rep.violation("expanded text in the generated file differs from the model's (rule commands, exports, sources, task commands): " + "; ".join(r["dis"])[:300],
                           gen_common.replay_data(r), found_input=True)
-    rep.cov.update(e2e_projects=len(ecases), e2e_disagreements=ne2e)
+    # ... and the strings that reach a task's shell (commands, exported values)
+    from .. import tasktext
+    ntask, tbad = tasktext.check(lz, ecases, results, limit=40 if tier == "quick" else 400)
+    for text, data in tbad:
+        rep.violation("expanded task text differs from the model's: " + text[:400], data, found_input=True)
+    rep.cov.update(e2e_projects=len(ecases), e2e_disagreements=ne2e, task_runs_compared=ntask, task_text_differences=len(tbad))
     rep.cov.update(evaluations=len(cases), distinct_nontrivial=len(distinct),
                    rule="strings built from a piece grammar biased to ${ } \\ $( ) and multi-byte characters, variable maps with chains and cycles, "
                         "policies E/I/D/M; non-trivial = request containing >= 2 of {reference, escape, expression, 2-byte char, 3-byte char}; distinct request lines",
